@@ -222,26 +222,37 @@ func (d *Decoder) unmarshal(val reflect.Value, tagType byte) error {
 		vt := val.Type()
 		if vt == reflect.TypeOf(ba) {
 			val.SetBytes(ba)
-		} else if vt.Kind() == reflect.Slice {
-			switch ve := vt.Elem(); ve.Kind() {
-			case reflect.Int8, reflect.Uint8:
-				length := int(aryLen)
+		} else if vt.Kind() == reflect.Slice || vt.Kind() == reflect.Array {
+			length := int(aryLen)
+			ve := vt.Elem()
+			switch ve.Kind() {
+			case reflect.Int8, reflect.Uint8, reflect.Bool:
+			default:
+				return errors.New("cannot parse TagByteArray to " + vt.String())
+			}
+			if vt.Kind() == reflect.Array {
+				if vt.Len() != length {
+					return errors.New("cannot parse TagByteArray to " + vt.String() + ", length not match")
+				}
+			} else {
 				if val.Cap() < length {
 					val.Set(reflect.MakeSlice(vt, length, length))
 				}
 				val.SetLen(length)
-				switch ve.Kind() {
-				case reflect.Int8:
-					for i := 0; i < length; i++ {
-						val.Index(i).Set(reflect.ValueOf(int8(ba[i])))
-					}
-				case reflect.Uint8:
-					for i := 0; i < length; i++ {
-						val.Index(i).Set(reflect.ValueOf(ba[i]))
-					}
+			}
+			switch ve.Kind() {
+			case reflect.Int8:
+				for i := 0; i < length; i++ {
+					val.Index(i).SetInt(int64(int8(ba[i])))
 				}
-			default:
-				return errors.New("cannot parse TagByteArray to slice of" + ve.String())
+			case reflect.Uint8:
+				for i := 0; i < length; i++ {
+					val.Index(i).SetUint(uint64(ba[i]))
+				}
+			case reflect.Bool:
+				for i := 0; i < length; i++ {
+					val.Index(i).SetBool(ba[i] != 0)
+				}
 			}
 		} else if vt.Kind() == reflect.Interface {
 			val.Set(reflect.ValueOf(ba))
